@@ -22,6 +22,7 @@ def label (j : Json) : Except String Label := do
   match name with
   | "set" => pure (.set (← natAt a 1) (← natAt a 2))
   | "del" => pure (.del (← natAt a 1))
+  | "inv" => pure .inv
   | "cEnter" => pure (.cEnter (← natAt a 1) (← boolAt a 2))
   | "cJoin" => pure (.cJoin (← natAt a 1))
   | "cClear" => pure (.cClear (← natAt a 1))
@@ -50,7 +51,7 @@ def wname : WPhase Store → String
   | .done _ => "done"
 
 def actor : Label → Option Nat
-  | .set _ _ => none | .del _ => none
+  | .set _ _ => none | .del _ => none | .inv => none
   | .cEnter r _ => some r | .cJoin r => some r | .cClear r => some r | .rTrack r => some r | .rStart r => some r
   | .wBegin r => some r | .wRun r => some r | .wPublish r => some r | .wRet r => some r
 
